@@ -11,7 +11,8 @@ tie   : per schedule, per step: set of enabled threads, the primitive executed,
         the results of completed operations; final queue / pause / execution log.
 oracle: the property statement evaluated on the trace of the REAL code only
         (exactly-once execution at a control point, result delivery, wait/cont
-        discipline, nobody blocked forever for well-formed programs).
+        discipline, nobody blocked forever for every program set that does not
+        end inside a pause section = Controller.WF of the liveness theorems).
 """
 import importlib.util
 import json
@@ -989,7 +990,8 @@ def main():
     R = H.Result(
         'cases = programs of 1-3 interface threads (up to 9 operations each '
         'over get / blocking set / queued set / queued solver call / '
-        'get_result / pause_on_next / wait / cont; 70% well-formed) x one '
+        'get_result / pause_on_next / wait / cont; 70% strictly well-formed, '
+        'a further ~20% arbitrary but not ending inside a pause section) x one '
         'schedule of the real CommandManager under the cooperative scheduler '
         '(uniform, bursty, solver-eager, interface-eager; then a fair drain); '
         'distinct = distinct (programs, realized schedule); non-trivial = at '
